@@ -97,7 +97,15 @@ def fieldCfgOfJson (j : Json) : Except String FieldCfg := do
   pure { escape := ← optStr j "escape", escapeChars := (← optStr j "escapeChars").getD [],
          escapeQuote := getBoolD j "escapeQuote" true, quote := ← optStr j "quote" }
 
-/-- `field.case`: `cfg`, `quoted`, `name`, `impl` -/
+/-- `field.case`: `cfg`, `quoted`, `name`, `impl` (the implementation's text).  Reply:
+* `ok` — the implementation's text, read by the STRICT target reader `decodeField` (a quoted name
+  ends at the first unescaped quote; text after it = terminated early), is the name;
+* `implRead` — that reading (null = malformed / terminated early);
+* `model` — the model's rendering (drift diagnostic);
+* `escCovered` — the escape character is in the escape class (finding D7f otherwise);
+* `quoteEscaped` — the configuration escapes its quote at all: a non-empty escape string and the
+  first quote character is in the escape class or is the one-character quote with `escapeQuote`;
+* `hasQuote` — the name contains the first character of the (non-empty) quote string. -/
 def fieldCase (j : Json) : Except String Json := do
   let c ← fieldCfgOfJson (← j.getObjVal? "cfg")
   let quoted := getBoolD j "quoted" false
@@ -107,11 +115,18 @@ def fieldCase (j : Json) : Except String Json := do
     | some [e] => c.escapeChars.contains e
     | some _ => false
     | none => true
+  let escapes (ch : Char) : Bool :=
+    match c.escape with
+    | some (_ :: _) => c.escapeChars.contains ch || (c.escapeQuote && c.quote == some [ch])
+    | _ => false
+  let q0 : Option Char := c.quote.bind List.head?
   pure (Json.mkObj [
     ("model", strToJson (escapeAndQuoteField c quoted name)),
     ("implRead", match decodeField c quoted impl with | some f => strToJson f | none => Json.null),
     ("ok", Json.bool (decodeField c quoted impl == some name)),
-    ("escCovered", Json.bool escCovered)])
+    ("escCovered", Json.bool escCovered),
+    ("quoteEscaped", Json.bool (match q0 with | some ch => escapes ch | none => false)),
+    ("hasQuote", Json.bool (match q0 with | some ch => name.contains ch | none => false))])
 
 /-- `field.batch`: several configurations for one field name -/
 def fieldBatch (j : Json) : Except String Json := do
